@@ -1,10 +1,10 @@
 package harness
 
 import (
-	"github.com/bartossh/Computantis/src/cache"
 	"context"
 	"crypto/sha256"
 	"fmt"
+	"github.com/bartossh/Computantis/src/cache"
 	"sort"
 	"strings"
 	"time"
